@@ -344,7 +344,11 @@ impl Gen {
                         let p = self.pred(w, 0);
                         (0, Op::FRetain { p, fuse: self.rng.below(len as u64 + 2) as usize })
                     }
-                    8 | 9 => (0, Op::FReplace { k: self.some_key(w, 0) }),
+                    8 => (0, Op::FReplace { k: self.some_key(w, 0) }),
+                    9 => {
+                        let p = self.pred(w, 0);
+                        (0, Op::FDrainFilter { p, fuse: self.rng.below(len as u64 + 2) as usize })
+                    }
                     10 => (0, Op::Remove { k: self.some_key(w, 0), variant: 0 }),
                     11 => (0, Op::Insert { k: self.some_key(w, 0), v: 2 }),
                     12 => (0, Op::Get { k: self.some_key(w, 0), variant: 0 }),
